@@ -82,6 +82,9 @@ pub struct GenStats {
     pub recursive_defs: u32,
     pub locals: u32,
     pub loop_locals: u32,
+    pub var_redeclarations: u32,
+    pub local_redeclarations: u32,
+    pub case_no_default: u32,
 }
 
 struct FnCtx {
@@ -534,9 +537,16 @@ impl<'a> Gen<'a> {
                 // variable definition (top level only) or assignment
                 if self.at_top_level() && (self.vars.len() < 6) && self.rng.flip() {
                     let t = self.any_ty();
-                    let name = self.fresh_name("v");
+                    // a fresh name, or a re-declaration that shadows an earlier variable (code compiled before keeps
+                    // the old cell)
+                    let redeclare = !self.vars.is_empty() && self.rng.chance(1, 3);
+                    let name = if redeclare { self.vars[self.rng.below(self.vars.len())].0.clone() } else { self.fresh_name("v") };
                     let mut v = self.push(t, depth + 1);
                     v.push(self.node(Kind::VarDef(name.clone())));
+                    if redeclare {
+                        self.stats.var_redeclarations += 1;
+                        self.vars.retain(|(n, _)| *n != name);
+                    }
                     self.vars.push((name, t));
                     v
                 } else if !self.vars.is_empty() {
@@ -576,9 +586,21 @@ impl<'a> Gen<'a> {
                     v
                 } else if self.in_def() {
                     let t = self.any_ty();
-                    let name = self.fresh_name("l");
+                    // a fresh name, or a second declaration of a visible local (it gets its own slot and shadows)
+                    let redeclare = !self.cur_fn().locals.is_empty() && self.rng.chance(1, 4);
+                    let name = if redeclare {
+                        let nl = self.cur_fn().locals.len();
+                        let k = self.rng.below(nl);
+                        self.cur_fn().locals[k].0.clone()
+                    } else {
+                        self.fresh_name("l")
+                    };
                     let mut v = self.push(t, depth + 1);
                     v.push(self.node(Kind::Local(name.clone())));
+                    if redeclare {
+                        self.stats.local_redeclarations += 1;
+                        self.cur_fn().locals.retain(|(n, _)| *n != name);
+                    }
                     self.stats.locals += 1;
                     if self.cur_fn().do_depth > 0 || self.cur_fn().loop_depth > 0 {
                         self.stats.loop_locals += 1;
@@ -600,19 +622,52 @@ impl<'a> Gen<'a> {
                 v
             }
             11 | 12 => {
-                let mut v = self.push(Ty::Int, depth + 1);
+                // three shapes: default = drop + code; default = code + drop; no default code at all (selector is a
+                // literal, so the generator knows whether an arm consumed it and puts the drop after endcase if not)
+                let shape = self.rng.below(3);
+                let sel = if shape == 2 { Some(self.lit_small()) } else { None };
+                let sel_val = match &sel {
+                    Some(Node { kind: Kind::Lit(Val::Int(v)), .. }) => Some(*v),
+                    _ => None,
+                };
+                let mut v = match sel {
+                    Some(n) => vec![n],
+                    None => self.push(Ty::Int, depth + 1),
+                };
                 self.open.push(Open::Case);
                 let narms = self.rng.below(5);
                 let mut arms = Vec::new();
+                let mut matched = false;
                 for _ in 0..narms {
-                    let pre = vec![self.lit_small()];
+                    let lab = self.lit_small();
+                    if let (Some(sv), Kind::Lit(Val::Int(lv))) = (sel_val, &lab.kind) {
+                        matched |= sv == *lv;
+                    }
+                    let pre = vec![lab];
                     let body = self.body(depth + 1);
                     arms.push((pre, body));
                 }
-                let mut default = vec![self.prim("drop")];
-                default.extend(self.body(depth + 1));
+                let default = match shape {
+                    0 => {
+                        let mut d = vec![self.prim("drop")];
+                        d.extend(self.body(depth + 1));
+                        d
+                    }
+                    1 => {
+                        let mut d = self.body(depth + 1);
+                        d.push(self.prim("drop"));
+                        d
+                    }
+                    _ => vec![],
+                };
                 self.open.pop();
                 v.push(self.node(Kind::Case(arms, default)));
+                if shape == 2 {
+                    self.stats.case_no_default += 1;
+                    if !matched {
+                        v.push(self.prim("drop"));
+                    }
+                }
                 v
             }
             13..=16 => self.do_loop(depth),
